@@ -66,7 +66,7 @@ def outerSum : List (List Nat) → List Nat
   | l :: ls => l.flatMap fun a => (outerSum ls).map (a + ·)
 
 /-- copy the source elements at the given flat positions (`d` is never read when the positions
-are in range; `Props.C20.bcast_in_range`). -/
+are in range; `Lemmas.NDArr.bcast_in_range`). -/
 def gather (d : α) (data : List α) (idx : List Nat) : List α := idx.map fun i => data.getD i d
 
 /-! ### broadcasting -/
@@ -209,15 +209,12 @@ def walk : List Nat → List Ix → List (Except PyErr Sel)
      | some l => .ok (.basic (l.map (· * ns.prod)))) :: walk ns ks
   | n :: ns, .intArr sh data :: ks => .ok (.adv ⟨sh, data⟩ n ns.prod) :: walk ns ks
 
-def isIndexError : Except PyErr Sel → Bool
-  | .error .indexError => true
-  | _ => false
-
-/-- numpy's error order: without array indices the indices are processed left to right; with
-an array index present, integer range and boolean shape errors (`IndexError`) are raised while
-the index is prepared, before the slices are taken (`ValueError`). -/
-def collect (fancy : Bool) (rs : List (Except PyErr Sel)) : Except PyErr (List Sel) :=
-  if fancy && rs.any isIndexError then .error .indexError else rs.mapM id
+/-- boolean arrays must have exactly the shape of the dimensions they index ("boolean index did
+not match indexed array"): checked while numpy prepares the index, before anything else. -/
+def boolsOk : List Nat → List Ix → Bool
+  | _, [] => true
+  | dims, .boolArr sh _ :: ks => (dims.take sh.length == sh) && boolsOk (dims.drop sh.length) ks
+  | dims, k :: ks => boolsOk (dims.drop k.consumes) ks
 
 def advOf : Sel → Option (NDArr Int × Nat × Nat)
   | .adv ix n st => some (ix, n, st)
@@ -261,12 +258,17 @@ def assemble (ss : List Sel) : Except PyErr (List (List Nat × List Nat)) :=
         else
           .ok ((B, advOffs) :: ss.filterMap basicOf)
 
-/-- `a[key]` as a shape-determined gather: result shape and flat source positions. -/
+/-- `a[key]` as a shape-determined gather: result shape and flat source positions.
+numpy's error order: (1) while the index is prepared: too many indices, more than one Ellipsis,
+boolean shape mismatch (`IndexError`); (2) left to right over the plain ints and slices: int out
+of range (`IndexError`), zero slice step (`ValueError`); (3) the advanced indices: they do not
+broadcast together, then an element out of range (`IndexError`; an empty broadcast checks nothing). -/
 def plan (shape : List Nat) (key : List Ix) : Except PyErr (List Nat × List Nat) :=
   match expandKey shape.length key with
   | .error e => .error e
   | .ok key' =>
-    match collect (key'.any Ix.isArray) (walk shape key') with
+    if !boolsOk shape key' then .error .indexError else
+    match (walk shape key').mapM id with
     | .error e => .error e
     | .ok ss =>
       match assemble ss with
